@@ -106,6 +106,31 @@ def uint_codec_replay(which):
     return None
 
 
+def bool_codec_replay(which):
+    """Native witness search for abi.Bool.encode / decode on the spec AVM against ARC-4 (most significant bit of one byte)."""
+    from vf.core import use_repo
+    use_repo()
+    import pyteal as pt
+    from spec import avm
+    for v in (0, 1):
+        if which == "encode":
+            b = pt.abi.Bool()
+            teal = pt.compileTeal(pt.Seq(b.set(bool(v)), pt.Log(b.encode()), pt.Approve()), pt.Mode.Application, version=6)
+            r = avm.run(teal, avm.Ctx())
+            if r.verdict != "approve" or list(r.logs) != [bytes([0x80 * v])]:
+                return {"input": {"value": bool(v)}, "problems": [f"Bool.encode() of {bool(v)} gives {r.verdict} {[bytes(x).hex() for x in r.logs]}, expected {bytes([0x80 * v]).hex()}"], "teal": teal}
+        else:
+            for start in (None, 0, 2):
+                buf = b"\x7f" * (start or 0) + bytes([0x80 * v | 0x55]) + b"\x7f"
+                b = pt.abi.Bool()
+                kw = {} if start is None else {"start_index": pt.Int(start)}
+                teal = pt.compileTeal(pt.Seq(b.decode(pt.Bytes(buf), **kw), pt.Log(pt.Itob(b.get())), pt.Approve()), pt.Mode.Application, version=6)
+                r = avm.run(teal, avm.Ctx())
+                if r.verdict != "approve" or list(r.logs) != [v.to_bytes(8, "big")]:
+                    return {"input": {"buffer": buf.hex(), "start_index": start}, "problems": [f"Bool.decode of {buf.hex()} at {start} gives {r.verdict} {[bytes(x).hex() for x in r.logs]}, expected {v}"], "teal": teal}
+    return None
+
+
 def run(report: Report, tier, seed):
     report.trust("algosdk.abi (reference codec: type strings, is_dynamic, byte_len, encode)", "spec/avm.py",
                  "spec arc4 position function in contracts/c06_layout.py (independent, element-by-element walk)")
@@ -117,7 +142,8 @@ def run(report: Report, tier, seed):
                            ("contracts.c06_encode", "EncodeTuple", "O6.16"),
                            ("contracts.c06_uint", "UintSetInt", "O6.17"),
                            ("contracts.c06_uint", "UintSetExpr", "O6.18"),
-                           ("contracts.c06_uint", "UintEncode", "O6.19")])
+                           ("contracts.c06_uint", "UintEncode", "O6.19"),
+                           ("contracts.c06_uint", "BoolEncode", "O6.20")])
     jobs = jobs_for(tier, seed)
     res = A.pool_map(A.encode_case, jobs)
     bad = [r for r in res if r["problems"]]
@@ -155,6 +181,8 @@ def run(report: Report, tier, seed):
     report.sample({"shape": jobs[40][0], "what": "assembled with set() from parts, Log(encode()) compared with algosdk"})
     report.extra["explanation"] = "P: layout arithmetic (pyvc); B: Expr layer against algosdk on generated shapes/values"
     def search(fn, obs):
+        if fn.endswith("Bool.encode"):
+            return bool_codec_replay("encode")
         if fn.endswith("uint.uint_encode"):
             return uint_codec_replay("encode")
         if fn.endswith("uint.uint_set"):
